@@ -424,6 +424,14 @@ def run_step(sb: Sandbox, options: dict, step: dict, timeout: float = 180.0) -> 
     before = src_digest(sb)
     job, env = build_job(sb, step.get("options") or options, step.get("sigma") or {}, step.get("faults") or [], step.get("job_extra"))
     res = run_child(sb, job, env, step.get("timeout", timeout))
+    exc_ = res.get("exception") or {}
+    if (res.get("outcome") == "failed" and str(exc_.get("type", "")).startswith("Unicode") and "surrogates not allowed" in str(exc_.get("message", ""))
+            and not exc_.get("innermost_is_tool") and any(ord(ch) > 127 for rel in sb.pkg["files"] for ch in rel)):
+        # A package with non-ASCII FILE NAMES run under a locale whose file-system encoding is ASCII: Python hands out the
+        # names with surrogate escapes and the type checker cannot encode them. The environment cannot represent this input;
+        # no property quantifies over that (the judges treat it like a package the type checker cannot load).
+        res["outcome"] = "not_loadable"
+        res["env_unrepresentable"] = True
     res["sigma"] = full_sigma(step.get("sigma"))
     res["faults"] = step.get("faults") or []
     res["out_dir_rel"] = os.path.relpath(job["out_dir"], sb.root)
